@@ -3,7 +3,15 @@
 
 use std::collections::BTreeSet;
 
-use raft::eraftpb::{ConfChangeTransition, ConfChangeType, ConfChangeV2};
+use raft::eraftpb::{ConfChangeSingle, ConfChangeTransition, ConfChangeType, ConfChangeV2};
+
+/// The three operations of the configuration algebra.
+#[derive(Clone, Copy, Debug, PartialEq, Eq)]
+pub enum RefOp {
+    Simple,
+    Enter { auto_leave: bool },
+    Leave,
+}
 
 use crate::world::ConfShape;
 
@@ -46,8 +54,8 @@ impl RefConf {
         s
     }
 
-    fn apply_changes(&mut self, cc: &ConfChangeV2) -> Result<(), String> {
-        for c in cc.get_changes() {
+    fn apply_changes(&mut self, ccs: &[ConfChangeSingle]) -> Result<(), String> {
+        for c in ccs {
             let id = c.node_id;
             if id == 0 {
                 continue;
@@ -117,35 +125,51 @@ impl RefConf {
 
     /// The configuration after applying `cc`, or Err if the change must be rejected.
     pub fn apply(&self, cc: &ConfChangeV2) -> Result<RefConf, String> {
-        let mut n = self.clone();
         let leave = cc.get_transition() == ConfChangeTransition::Auto && cc.get_changes().is_empty();
         let enter = cc.get_transition() != ConfChangeTransition::Auto || cc.get_changes().len() > 1;
-        if leave {
-            if !self.joint() {
-                return Err("leave while not joint".into());
-            }
-            let staged: Vec<u64> = n.learners_next.iter().cloned().collect();
-            n.learners.extend(staged);
-            n.learners_next.clear();
-            n.outgoing.clear();
-            n.auto_leave = false;
+        let op = if leave {
+            RefOp::Leave
         } else if enter {
-            if self.joint() {
-                return Err("already joint".into());
-            }
-            if self.voters.is_empty() {
-                return Err("zero-voter config".into());
-            }
-            n.outgoing = n.voters.clone();
-            n.apply_changes(cc)?;
-            n.auto_leave = cc.get_transition() != ConfChangeTransition::Explicit;
+            RefOp::Enter { auto_leave: cc.get_transition() != ConfChangeTransition::Explicit }
         } else {
-            if self.joint() {
-                return Err("simple change while joint".into());
+            RefOp::Simple
+        };
+        self.apply_op(op, cc.get_changes())
+    }
+
+    /// One operation of the algebra applied to an arbitrary change list (Changer::simple / enter_joint / leave_joint).
+    pub fn apply_op(&self, op: RefOp, ccs: &[ConfChangeSingle]) -> Result<RefConf, String> {
+        let mut n = self.clone();
+        match op {
+            RefOp::Leave => {
+                if !self.joint() {
+                    return Err("leave while not joint".into());
+                }
+                let staged: Vec<u64> = n.learners_next.iter().cloned().collect();
+                n.learners.extend(staged);
+                n.learners_next.clear();
+                n.outgoing.clear();
+                n.auto_leave = false;
             }
-            n.apply_changes(cc)?;
-            if n.voters.symmetric_difference(&self.voters).count() > 1 {
-                return Err("more than one voter changed".into());
+            RefOp::Enter { auto_leave } => {
+                if self.joint() {
+                    return Err("already joint".into());
+                }
+                if self.voters.is_empty() {
+                    return Err("zero-voter config".into());
+                }
+                n.outgoing = n.voters.clone();
+                n.apply_changes(ccs)?;
+                n.auto_leave = auto_leave;
+            }
+            RefOp::Simple => {
+                if self.joint() {
+                    return Err("simple change while joint".into());
+                }
+                n.apply_changes(ccs)?;
+                if n.voters.symmetric_difference(&self.voters).count() > 1 {
+                    return Err("more than one voter changed".into());
+                }
             }
         }
         n.invariants()?;
